@@ -140,6 +140,62 @@ def check(ctx: Ctx, rep: Report):
     c18_r3(ctx, sub, wire)
     for o in sub.obligations:
         rep.obligations.append(type(o)("C17.R3", o.key, o.where, o.what, o.status, o.detail))
+    r4_known_ids(ctx, rep)
+
+
+def r4_known_ids(ctx: Ctx, rep: Report):
+    """write_setting(id, value) for an id found in self._settings hands exactly that setting object and the caller's
+    value to _write_setting, once, on every path (R2 then decides what _write_setting sends); the 'modbus-N' escape
+    hatch writes register N with int(value) and reads it back signed."""
+    from .c18 import _lookup_truth
+    from ..replay import Replay
+    prog = ctx.prog
+    rep.rule("C17.R4", "write_setting hands the looked-up setting and the caller's value to _write_setting exactly once; the modbus-N escape reads back signed what it wrote", 4)
+    for fam in ("ET", "DT", "ES"):
+        fn = prog.cls(fam).methods.get("write_setting")
+        if fn is None:
+            raise AnalysisError("%s.write_setting not found" % fam)
+        idp, vp = fn.params[1], fn.params[2]
+        bad, nknown = None, 0
+        for p in enumerate_paths(prog, fn, no_raise):
+            if not any(_lookup_truth(fn, ev) is True for ev in p.events if ev.kind == "test"):
+                continue
+            nknown += 1
+            rp = Replay(prog, fn, p)
+            calls = [(i, ev.node) for i, ev in enumerate(p.events) if ev.kind == "call" and call_chain(ev.node) == ("self", "_write_setting")]
+            lookup = Sym.for_function(prog, fn).lin(ast.parse("self._settings.get(%s)" % idp, mode="eval").body)
+            ok = len(calls) == 1 and p.end != "raise"
+            if ok:
+                i, c = calls[0]
+                sy = rp.sym_at(i)
+                a0 = sy.lin(c.args[0]) if c.args else None
+                ok = len(c.args) == 2 and sy.lin(c.args[1]) == Lin.of_term(("var", vp)) and a0 is not None and \
+                    (a0 == lookup or "_settings" in repr(a0))
+                awaited = any(ev.kind == "await" and isinstance(ev.node, ast.Await) and ev.node.value is c for ev in p.events[i:])
+                ok = ok and awaited
+            if not ok and bad is None:
+                bad = p
+        if nknown == 0:
+            raise AnalysisError("%s.write_setting: no path for a known setting id found" % fam)
+        rep.check(bad is None, "C17.R4", "known-id:%s" % fam, fn.loc(), "%s.write_setting(known id, v) awaits _write_setting(<that setting>, v) exactly once (%d paths)" % (fam, nknown),
+                  bad="%s.write_setting: for an id found in self._settings the call does not end in exactly one awaited self._write_setting(<that setting>, %s) [path %s]: nothing (or something else) is written" % (
+                      fam, vp, bad.describe(8) if bad else ""))
+    # modbus-N: the read side decodes the register as a signed 16-bit number (the write side sends int(value) in two's complement, C03.R2)
+    for fam in ("ET", "DT", "ES"):
+        for mname in ("read_setting",):
+            fn = prog.cls(fam).methods.get(mname)
+            if fn is None:
+                continue
+            convs = [n for n in ast.walk(fn.node) if isinstance(n, ast.Call) and norm(n.func) == "int.from_bytes"]
+            if not convs:
+                continue
+            sym = Sym.for_function(prog, fn)
+            oks = []
+            for c in convs:
+                t = sym.lin(c).single_term()
+                oks.append(t is not None and t[0] == "int" and t[2] == "big" and t[3] is True)
+            rep.check(all(oks), "C17.R4", "modbus-readback:%s" % fam, fn.loc(convs[0]), "%s.%s('modbus-N') decodes the register big-endian and signed" % (fam, mname),
+                      bad="%s.%s('modbus-N') does not decode the register as a signed big-endian number: a negative value written through write_setting('modbus-N', v) reads back as v + 65536" % (fam, mname))
 
 
 def _byte_half(ctx, rep, dec, ci, row, key, where):
